@@ -854,6 +854,10 @@ func (s *Scanner) isTautology(expr *ast.BinaryExpression) bool {
 		if leftVal == rightVal {
 			return true
 		}
+		// TRUE = true: boolean literals keep their source spelling
+		if strings.EqualFold(leftLit.Type, "bool") && strings.EqualFold(rightLit.Type, "bool") && strings.EqualFold(leftVal, rightVal) {
+			return true
+		}
 	}
 
 	// Check for identifier tautologies: col=col
@@ -861,7 +865,8 @@ func (s *Scanner) isTautology(expr *ast.BinaryExpression) bool {
 	rightIdent, rightIsIdent := expr.Right.(*ast.Identifier)
 
 	if leftIsIdent && rightIsIdent {
-		if leftIdent.Name == rightIdent.Name {
+		// unquoted names are case-insensitive: ID = id is the same column twice
+		if strings.EqualFold(leftIdent.Name, rightIdent.Name) {
 			return true
 		}
 	}
